@@ -316,6 +316,88 @@ let rout_of_string (s : string) : ChkReplace.rout =
   else if s.[0] = 'n' then ChkReplace.OSize (n_of_string (S.sub s 1 (S.length s - 1)))
   else ChkReplace.OText (text_of_hex s)
 
+
+(* ---------- histories and pairs ---------- *)
+let parse_hop (s : string) : ApiHist.hop =
+  match s with
+  | "src" -> ApiHist.OSrc | "buf" -> ApiHist.OBuf | "size" -> ApiHist.OSize | "rope" -> ApiHist.ORope
+  | "m1" -> ApiHist.OMap true | "m0" -> ApiHist.OMap false
+  | "s10" -> ApiHist.OStream (true, false) | "s00" -> ApiHist.OStream (false, false)
+  | "s11" -> ApiHist.OStream (true, true) | "s01" -> ApiHist.OStream (false, true)
+  | "hash" -> ApiHist.OHash | "cl" -> ApiHist.OClone
+  | _ -> failwith ("hop " ^ s)
+
+let parse_hops (toks : string list) : ApiHist.hop list * string list =
+  match toks with
+  | n :: r ->
+    let rec go k r acc = if k = 0 then (L.rev acc, r) else
+        match r with o :: r' -> go (k - 1) r' (parse_hop o :: acc) | [] -> failwith "hops" in
+    go (int_of_string n) r []
+  | [] -> failwith "hops"
+
+let rec string_of_hev (h : HashEq.hev) : string =
+  match h with
+  | HashEq.HB t -> "b:" ^ hex_of_text t
+  | HashEq.HU8 n -> "u8:" ^ string_of_n n
+  | HashEq.HUs n -> "us:" ^ string_of_n n
+  | HashEq.HIs n -> "is:" ^ string_of_n n
+  | HashEq.HU32 n -> "u32:" ^ string_of_n n
+  | HashEq.HU64 _ -> "u64:*"
+let hev_of_string (s : string) : HashEq.hev =
+  match S.split_on_char ':' s with
+  | ["b"; h] -> HashEq.HB (text_of_hex h)
+  | ["u8"; n] -> HashEq.HU8 (n_of_string n)
+  | ["us"; n] -> HashEq.HUs (n_of_string n)
+  | ["is"; n] -> HashEq.HIs (n_of_string n)
+  | ["u32"; n] -> HashEq.HU32 (n_of_string n)
+  | ["u64"; n] ->
+    (* the digest itself stands for the inner stream: equal digests <-> equal singleton lists;
+       u64 values may exceed OCaml's int, keep them as text *)
+    HashEq.HU64 [HashEq.HB (L.map (fun c -> n_of_int (Char.code c)) (L.init (S.length n) (S.get n)))]
+  | _ -> failwith ("hev " ^ s)
+
+let string_of_answer (a : ApiHist.answer) : string =
+  match a with
+  | ApiHist.AText t -> "T" ^ hex_of_text t
+  | ApiHist.ANum n -> "n" ^ string_of_n n
+  | ApiHist.AOptText t -> "T" ^ opt_hex t
+  | ApiHist.AMap m -> "M" ^ string_of_optmap m
+  | ApiHist.AStream (evs, gi) -> "E" ^ string_of_events evs ^ "@" ^ gi_str gi
+  | ApiHist.AHash h -> "H" ^ list_str string_of_hev h
+  | ApiHist.ANone -> "-"
+
+let answer_of_string (o : ApiHist.hop) (s : string) : ApiHist.answer =
+  if s = "-" then ApiHist.ANone else
+  let body = S.sub s 1 (S.length s - 1) in
+  match s.[0], o with
+  | 'T', ApiHist.ORope -> ApiHist.AOptText (opt_of_hex body)
+  | 'T', _ -> ApiHist.AText (text_of_hex body)
+  | 'n', _ -> ApiHist.ANum (n_of_string body)
+  | 'M', _ -> ApiHist.AMap (optmap_of_string body)
+  | 'E', _ ->
+    let i = S.rindex body '@' in
+    ApiHist.AStream (events_of_string (S.sub body 0 i), parse_gi (S.sub body (i + 1) (S.length body - i - 1)))
+  | 'H', _ -> ApiHist.AHash (L.map hev_of_string (split_list body))
+  | _ -> failwith ("answer " ^ s)
+
+let answers_kv prefix (l : ApiHist.answer list) : string =
+  S.concat " " (L.mapi (fun i a -> Printf.sprintf "%s%d=%s" prefix i (string_of_answer a)) l)
+
+let parse_answers kvs prefix (ops : ApiHist.hop list) : ApiHist.answer list =
+  L.mapi (fun i o -> answer_of_string o (get kvs (Printf.sprintf "%s%d" prefix i))) ops
+
+let final_ops = ApiHist.final_ops
+
+let parse_pair (toks : string list) =
+  match toks with
+  | relaxed :: r ->
+    let (a, r1) = parse_src r in
+    let (opsa, r2) = parse_hops r1 in
+    let (b, r3) = parse_src r2 in
+    let (opsb, _) = parse_hops r3 in
+    (relaxed = "1", a, opsa, b, opsb)
+  | [] -> failwith "pair"
+
 (* ---------- per-kind handlers ---------- *)
 let model_case (toks : string list) : string =
   match toks with
@@ -339,6 +421,16 @@ let model_case (toks : string list) : string =
   | "rhist" :: rest ->
     let (inner, h) = parse_rhist rest in
     "outs=" ^ list_str string_of_rout (ApiCheck.api_rhist inner h)
+  | ("thist" | "chist") as k :: rest ->
+    let (s, r1) = parse_src rest in
+    let (ops, _) = parse_hops r1 in
+    let (ans, ref) = if k = "thist" then ApiHist.api_thist s ops else ApiHist.api_chist s ops in
+    answers_kv "a" ans ^ " " ^ answers_kv "r" ref
+  | "pair" :: rest ->
+    let (_, a, opsa, b, opsb) = parse_pair rest in
+    let o = ApiHist.api_pair a opsa b opsb in
+    Printf.sprintf "eq=%s eqr=%s %s %s" (b01 o.ApiHist.po_eq) (b01 o.ApiHist.po_eqr)
+      (answers_kv "A" o.ApiHist.po_a) (answers_kv "B" o.ApiHist.po_b)
   | k :: _ -> failwith ("unknown case kind " ^ k)
   | [] -> failwith "empty case"
 
@@ -349,6 +441,12 @@ let verdict (n : coq_N) : string =
   | 100 -> "SKIP"
   | k when k >= 51 && k <= 59 -> Printf.sprintf "FAIL clause=%d KF=K%d" k (k - 50)
   | k -> Printf.sprintf "FAIL clause=%d" k
+
+let panic_verdict (trees : Types.src list) : string =
+  let cls = L.map (fun s -> int_of_n (ApiCheck.api_panic_class s)) trees in
+  if L.mem 100 cls then "SKIP"
+  else if L.mem 53 cls then "FAIL clause=panic KF=K3"
+  else "FAIL clause=panic"
 
 let prop_num (prop : string) : coq_N = n_of_int (int_of_string (S.sub prop 1 (S.length prop - 1)))
 
@@ -374,6 +472,17 @@ let check_case (prop : string) (toks : string list) (kvs : (string * string) lis
     else
       verdict (ApiRope.api_rope_check p q (parse_rope_obs kvs) (get kvs "sw" = "1") (get kvs "eq" = "1")
                  (get kvs "eqs" = "1"))
+  | ("thist" | "chist") :: rest ->
+    let (s, r1) = parse_src rest in
+    let (ops, _) = parse_hops r1 in
+    if has_panic kvs then panic_verdict [s] else
+    verdict (ApiCheck.api_check_hist s ops (parse_answers kvs "a" ops) (parse_answers kvs "r" ops))
+  | "pair" :: rest ->
+    let (relaxed, a, opsa, b, opsb) = parse_pair rest in
+    if has_panic kvs then panic_verdict [a; b] else
+    let o = { ApiHist.po_eq = (get kvs "eq" = "1"); po_eqr = (get kvs "eqr" = "1");
+              po_a = parse_answers kvs "A" final_ops; po_b = parse_answers kvs "B" final_ops } in
+    verdict (ApiCheck.api_check_pair (prop_num prop) a opsa b opsb relaxed o)
   | "rhist" :: rest ->
     let (inner, h) = parse_rhist rest in
     verdict (ApiCheck.api_check_rhist inner h (L.map rout_of_string (split_list (get kvs "outs"))))
@@ -382,7 +491,7 @@ let check_case (prop : string) (toks : string list) (kvs : (string * string) lis
     if has_panic kvs then
       (* a panic is a failure unless the case is outside the property's domain *)
       (if int_of_n (ApiCheck.api_check_tree (prop_num prop) s ws (ApiTree.api_tree s ws)) = 100
-       then "SKIP" else "FAIL clause=panic")
+       then "SKIP" else panic_verdict [s])
     else verdict (ApiCheck.api_check_tree (prop_num prop) s ws (parse_tree_obs kvs))
   | k :: _ -> failwith ("unknown case kind " ^ k)
   | [] -> failwith "empty case"
